@@ -36,6 +36,7 @@ import (
 	"github.com/rqlite/rqlite/v10/db"
 	"github.com/rqlite/rqlite/v10/internal/rsync"
 	"github.com/rqlite/rqlite/v10/internal/vhook"
+	"github.com/rqlite/rqlite/v10/store"
 )
 
 func init() {
@@ -465,6 +466,9 @@ type cdcH struct {
 	notes   []string
 	nevents atomic.Int64
 	stuck   string
+	// live cluster: entry number of the workload -> Raft log index (known when Execute returns)
+	liveMu sync.Mutex
+	live   map[int]int
 }
 
 // setLog makes the generator's entries the committed log and indexes the row changes of every commit.
@@ -541,7 +545,23 @@ func (h *cdcH) resolve(m *cdcjson.CDCMessage) [3]int {
 	if !same {
 		h.payloadBad("payload:not-the-changes-of-one-commit", map[string]any{"entry": kj[0], "ordinal": kj[1], "got": got})
 	}
-	return [3]int{kj[0], kj[1], int(m.Index)}
+	return [3]int{h.entryIndex(kj[0]), kj[1], int(m.Index)}
+}
+
+// entryIndex is the log index of the workload's k-th entry: k itself in the scripted runs; on the live
+// cluster the index Store.Execute returned (the payload may arrive a moment before Execute returns).
+func (h *cdcH) entryIndex(k int) int {
+	if h.live == nil {
+		return k
+	}
+	idx := 0
+	cdcWait(10*time.Second, func() bool {
+		h.liveMu.Lock()
+		defer h.liveMu.Unlock()
+		idx = h.live[k]
+		return idx != 0
+	})
+	return idx
 }
 
 func cdcFilter(ev string) bool {
@@ -1398,6 +1418,7 @@ func cdcTrace(args []string) error {
 	runs := fs.Int("runs", 10, "random scenarios")
 	only := fs.String("only", "", "run only the scenarios whose name contains this")
 	base := fs.String("dir", "", "scratch dir")
+	live := fs.Int("live", 1, "histories on the live 3-node cluster")
 	fs.Parse(args)
 	quietLogs()
 	if *base == "" {
@@ -1441,6 +1462,24 @@ func cdcTrace(args []string) error {
 			stats["kind:"+k] += v
 		}
 	}
+	for i := 0; i < *live && (*only == "" || strings.Contains("live-3-node-cluster", *only)); i++ {
+		r, err := cdcLiveRun(w, *base, seedFromEnv()*104729+int64(i))
+		if err != nil {
+			w.Close()
+			return fmt.Errorf("live cluster: %w", err)
+		}
+		results = append(results, r)
+		stats["scenarios"]++
+		stats["live"]++
+		stats["entries"] += r.Entries
+		stats["groups"] += r.Groups
+		stats["requests"] += r.Requests
+		stats["refused"] += r.Refused
+		stats["accepted"] += r.Accepted
+		stats["lost_groups"] += len(r.Lost)
+		stats["mislabelled"] += len(r.Mislabel)
+		stats["payload_bad"] += len(r.PayloadBad)
+	}
 	if err := w.Close(); err != nil {
 		return err
 	}
@@ -1453,4 +1492,261 @@ func cdcTrace(args []string) error {
 	b, _ := json.Marshal(stats)
 	fmt.Println(string(b))
 	return nil
+}
+
+// ---------------------------------------------------------------- live cluster
+
+// cdcLive runs one history on a live 3-node cluster with the real wiring: store.EnableCDC before the store
+// opens, cdc.CDCCluster over the node's real cluster service and client (HWM broadcast over the
+// network layer, leadership from Raft leader observations, snapshot sync from store.fsmSnapshot), real
+// log indexes.  Requests go through Store.Execute on the leader one at a time.  The first leader is
+// told by Service.SetLeader (rqlited starts the service before the first election and so observes it;
+// here the cluster service a CDCCluster needs exists only after the node is up).
+type cdcLiveNode struct {
+	svc *cdc.Service
+	cl  *cdc.CDCCluster
+}
+
+func cdcLive(h *cdcH, base string, g *cdcGen) (*cdcResult, error) {
+	var mu sync.Mutex
+	svcs := map[string]*cdcLiveNode{}
+	cfgFor := func() *cdc.Config {
+		return &cdc.Config{Endpoint: h.ep.srv.URL, MaxBatchSz: 2, MaxBatchDelay: 50 * time.Millisecond,
+			HighWatermarkInterval: 100 * time.Millisecond, TransmitTimeout: 3 * time.Second,
+			TransmitRetryPolicy: cdc.LinearRetryPolicy, TransmitMinBackoff: 30 * time.Millisecond, TransmitMaxBackoff: 30 * time.Millisecond}
+	}
+	var cfgErr error
+	configure := func(s *store.Store) {
+		id := s.ID()
+		cl := cdc.NewCDCCluster(s, nil, nil)
+		svc, err := cdc.NewService(id, filepath.Join(base, "cdc-"+id), cl, cfgFor())
+		if err != nil {
+			cfgErr = err
+			return
+		}
+		vhook.Name(svc.C(), id)
+		vhook.Name(svc.VerifFIFO(), id)
+		if err := s.EnableCDC(svc.C(), cdcTableRe, false); err != nil {
+			cfgErr = err
+			return
+		}
+		mu.Lock()
+		svcs[id] = &cdcLiveNode{svc: svc, cl: cl}
+		mu.Unlock()
+	}
+	wire := func(n *vNode) error {
+		mu.Lock()
+		ln := svcs[n.ID]
+		mu.Unlock()
+		ln.cl.VerifSetCluster(n.Cluster, n.Client)
+		return ln.svc.Start()
+	}
+	emit("", "reset", "name", "live-3-node-cluster", "nodes", 3)
+	c, err := newCluster(vClusterOpts{N: 3, Base: filepath.Join(base, "nodes"), NoHTTP: true, Configure: configure})
+	if err != nil {
+		return nil, err
+	}
+	defer c.Close()
+	defer func() {
+		mu.Lock()
+		for _, ln := range svcs {
+			ln.svc.Stop()
+		}
+		mu.Unlock()
+	}()
+	if cfgErr != nil {
+		return nil, cfgErr
+	}
+	for _, n := range c.nodes {
+		if err := wire(n); err != nil {
+			return nil, err
+		}
+	}
+	l := c.Leader(20 * time.Second)
+	if l == nil {
+		return nil, errors.New("no leader")
+	}
+	svcs[l.ID].svc.SetLeader(true)
+	if _, _, err := sExec(l.Store, false, strings.Split(cdcSchema, ";")...); err != nil {
+		return nil, err
+	}
+	h.live = map[int]int{}
+	exec := func(kind string) error {
+		e := g.add(kind)
+		h.setLog(g)
+		for try := 0; ; try++ {
+			ld := c.Leader(20 * time.Second)
+			if ld == nil {
+				return errors.New("no leader")
+			}
+			_, idx, err := sExec(ld.Store, e.Tx, e.Stmts...)
+			if err == nil {
+				h.liveMu.Lock()
+				h.live[e.K] = int(idx)
+				h.liveMu.Unlock()
+				return nil
+			}
+			if try > 20 {
+				return fmt.Errorf("execute entry %d: %w", e.K, err)
+			}
+			time.Sleep(200 * time.Millisecond)
+		}
+	}
+	for _, k := range []string{"single", "multi-tx", "single", "begin-commit", "other-table", "single", "fail-mid", "noop", "single"} {
+		if err := exec(k); err != nil {
+			return nil, err
+		}
+	}
+	if err := c.WaitConverged(20 * time.Second); err != nil {
+		return nil, err
+	}
+	// endpoint outage, the leader retries, leadership is transferred while it does
+	h.ep.setUp(false)
+	for _, k := range []string{"single", "single", "multi-tx"} {
+		if err := exec(k); err != nil {
+			return nil, err
+		}
+	}
+	l = c.Leader(20 * time.Second)
+	cdcWait(10*time.Second, func() bool { return svcs[l.ID].svc.NumEndpointRetries() >= 2 })
+	if err := l.Store.Stepdown(true, ""); err != nil {
+		h.note("stepdown: %v", err)
+	}
+	cdcWait(20*time.Second, func() bool { n := c.Leader(time.Second); return n != nil && n.ID != l.ID })
+	h.ep.setUp(true)
+	// snapshot on a follower (the real store synchronises with the CDC service), then restart it
+	var f *vNode
+	for _, n := range c.Followers() {
+		f = n
+	}
+	if f != nil {
+		if err := exec("single"); err != nil {
+			return nil, err
+		}
+		c.WaitConverged(20 * time.Second)
+		if err := f.Store.Snapshot(0); err != nil {
+			h.note("snapshot on %s: %v", f.ID, err)
+		} else {
+			emit("", "c.snap", "node", f.ID, "idx", int(f.Store.DBAppliedIndex()))
+		}
+		if err := exec("single"); err != nil {
+			return nil, err
+		}
+		c.WaitConverged(20 * time.Second)
+		mu.Lock()
+		old := svcs[f.ID]
+		mu.Unlock()
+		h.ingested(f.ID)
+		old.svc.Stop()
+		emit("", "c.restart", "node", f.ID, "snap", 0)
+		h.cnt[f.ID].resetPipeline()
+		nf, err := f.Restart()
+		if err != nil {
+			return nil, err
+		}
+		for i := range c.nodes {
+			if c.nodes[i].ID == nf.ID {
+				c.nodes[i] = nf
+			}
+		}
+		if cfgErr != nil {
+			return nil, cfgErr
+		}
+		if err := wire(nf); err != nil {
+			return nil, err
+		}
+	}
+	for _, k := range []string{"single", "multi-tx", "single"} {
+		if err := exec(k); err != nil {
+			return nil, err
+		}
+	}
+	c.WaitConverged(20 * time.Second)
+	// quiescence: endpoint up, a stable leader; wait until every group has been accepted or nothing moves
+	want := 0
+	for _, e := range h.log {
+		want += len(e.Groups)
+	}
+	delivered := func() int {
+		h.ep.mu.Lock()
+		defer h.ep.mu.Unlock()
+		seen := map[[2]int]bool{}
+		for _, a := range h.ep.accepted {
+			for _, gr := range a.Groups {
+				seen[[2]int{gr[0], gr[1]}] = true
+			}
+		}
+		return len(seen)
+	}
+	last, stable := int64(-1), 0
+	cdcWait(30*time.Second, func() bool {
+		time.Sleep(150 * time.Millisecond)
+		cur := h.nevents.Load()
+		if cur == last {
+			stable++
+		} else {
+			stable = 0
+		}
+		last = cur
+		return stable >= 6 || (delivered() >= want && stable >= 3)
+	})
+	ld := c.Leader(20 * time.Second)
+	leader := ""
+	if ld != nil {
+		leader = ld.ID
+	}
+	groups := [][2]int{}
+	h.liveMu.Lock()
+	for _, e := range h.log {
+		for j := range e.Groups {
+			groups = append(groups, [2]int{h.live[e.K], j + 1})
+		}
+	}
+	h.liveMu.Unlock()
+	emit("", "c.final", "leader", leader, "groups", groups)
+	res := &cdcResult{Name: "live-3-node-cluster", Nodes: 3, Entries: len(h.log), Requests: h.ep.requests, Refused: h.ep.refused,
+		Accepted: len(h.ep.accepted), PayloadBad: h.bad, Notes: h.notes, Kinds: map[string]int{}}
+	seen := map[[2]int]bool{}
+	for _, a := range h.ep.accepted {
+		for _, gr := range a.Groups {
+			seen[[2]int{gr[0], gr[1]}] = true
+			if gr[2] != gr[0] {
+				res.Mislabel = append(res.Mislabel, gr)
+			}
+		}
+	}
+	for _, gr := range groups {
+		res.Groups++
+		if !seen[gr] {
+			res.Lost = append(res.Lost, gr)
+		}
+	}
+	for _, e := range h.log {
+		res.Kinds[e.Kind]++
+	}
+	for _, id := range c.IDs() {
+		if h.cnt[id].dropped.Load() > 0 {
+			return nil, fmt.Errorf("live: the hand-off channel of %s filled up", id)
+		}
+	}
+	return res, nil
+}
+
+func cdcLiveRun(w *ndWriter, base string, seed int64) (*cdcResult, error) {
+	dir, err := os.MkdirTemp(base, "live")
+	if err != nil {
+		return nil, err
+	}
+	defer os.RemoveAll(dir)
+	h := &cdcH{w: w, base: dir, nodes: map[string]*cdcNode{}, cnt: map[string]*cdcCounters{}, sigs: map[string][2]int{}, expect: map[[2]int]map[string]bool{}}
+	for _, id := range []string{"n1", "n2", "n3"} {
+		h.cnt[id] = &cdcCounters{}
+		h.order = append(h.order, id)
+	}
+	h.ep = &cdcEndpoint{h: h, up: true}
+	h.ep.srv = httptest.NewServer(h.ep)
+	defer h.ep.srv.Close()
+	vhook.SetSink(h.sink)
+	defer vhook.SetSink(nil)
+	return cdcLive(h, dir, newCDCGen(rand.New(rand.NewSource(seed))))
 }
